@@ -20,6 +20,7 @@ Fixpoint ty_eqb (a b : ty) : bool :=
   | TArr x, TArr y => ty_eqb x y
   | TFun x1 x2, TFun y1 y2 => ty_eqb x1 y1 && ty_eqb x2 y2
   | TRec r, TRec s => rows_eqb r s
+  | TDict x, TDict y => ty_eqb x y
   | TEnum x, TEnum y => tags_eqb x y
   | TVar n, TVar m => Nat.eqb n m
   | TForall x, TForall y => ty_eqb x y
@@ -29,6 +30,28 @@ with rows_eqb (r s : rows) : bool :=
   match r, s with
   | RNil, RNil => true
   | RCons f t r', RCons g u s' => String.eqb f g && ty_eqb t u && rows_eqb r' s'
+  | _, _ => false
+  end.
+
+(* decision procedure for the subtyping relation of Decl.v *)
+Fixpoint subb (a b : ty) {struct a} : bool :=
+  ty_eqb a b ||
+  match a, b with
+  | TRec r, TDict u => rows_all_subb r u
+  | TArr x, TArr y => subb x y
+  | TDict x, TDict y => subb x y
+  | TRec r, TRec s => rows_subb r s
+  | _, _ => false
+  end
+with rows_all_subb (r : rows) (u : ty) {struct r} : bool :=
+  match r with
+  | RNil => true
+  | RCons _ t r' => subb t u && rows_all_subb r' u
+  end
+with rows_subb (r s : rows) {struct r} : bool :=
+  match r, s with
+  | RNil, RNil => true
+  | RCons f t r', RCons g u s' => String.eqb f g && subb t u && rows_subb r' s'
   | _, _ => false
   end.
 
@@ -49,7 +72,8 @@ Inductive atm :=
 | APrim (o : prim) (insts : list ty)
 | AAnnT (e : atm) (T : ty)
 | AUntyped (u : tm)
-| ACast (e : atm) (T : ty).
+| ACast (e : atm) (T : ty)
+| ASub (e : atm) (T : ty).                  (* subsumption: e's type is a subtype of T *)
 
 Fixpoint erase (a : atm) : tm :=
   match a with
@@ -71,6 +95,7 @@ Fixpoint erase (a : atm) : tm :=
   | AAnnT e T => AnnT (erase e) T
   | AUntyped u => Untyped u
   | ACast e T => Cast (erase e) T
+  | ASub e _ => erase e
   end.
 
 Fixpoint inst (T : ty) (insts : list ty) : option ty :=
@@ -172,6 +197,10 @@ Section Infer.
                    | Some TDyn => if first_order T then Some T else None
                    | _ => None
                    end
+    | ASub e T => match infer G e with
+                  | Some A => if subb A T then Some T else None
+                  | None => None
+                  end
     end.
 
   (* the certificate [a] proves that its erasure has type [T] in the empty context *)
